@@ -71,6 +71,10 @@ func runPoolTrial(n, k int, action string, rng *rand.Rand) trialResult {
 	accepted := make([]bool, k)
 	var wg sync.WaitGroup
 	queued := make(chan struct{}, k)
+	naps := make([]time.Duration, k) // drawn here: the rng is not safe for use from the task goroutines
+	for i := range naps {
+		naps[i] = time.Duration(rng.Intn(200)) * time.Microsecond
+	}
 	for i := 0; i < k; i++ {
 		i := i
 		wg.Add(1)
@@ -80,7 +84,7 @@ func runPoolTrial(n, k int, action string, rng *rand.Rand) trialResult {
 				done := track()
 				defer done()
 				atomic.AddInt32(&execCount[i], 1)
-				time.Sleep(time.Duration(rng.Intn(200)) * time.Microsecond)
+				time.Sleep(naps[i])
 				return i + 1000
 			})
 			queued <- struct{}{}
